@@ -843,6 +843,34 @@ pub fn gen_c07(rng: &mut Rng, thorough: bool) -> History {
         let (w, h) = em.dims(si);
         let identity = is_identity(&em.shadows[si].ctm);
         let open = em.shadows[si].brackets.len();
+        if rng.chance(1, 2500) && identity {
+            // A dash marathon: the statement allows up to 10^5 dashes along an outline. Ordinary
+            // histories stay at a few hundred (a long *horizontal* dashed line puts all its edges
+            // on a few sample rows, where the rasteriser's edge insertion is quadratic); a zigzag
+            // of steep lines spreads them over thousands of rows and is cheap: 66 000-98 000
+            // dash intervals along one subpath.
+            let k = 8 + rng.usize(5);
+            let mut segs = Vec::new();
+            let mut total = 0f32;
+            let mut last = (-3800f32, rng.f32_in(-3800., 3800.));
+            segs.push(Seg::M(F(last.0), F(last.1)));
+            for i in 0..k {
+                let x = if i % 2 == 0 { 3800. } else { -3800. };
+                let mut y = rng.f32_in(-3800., 3800.);
+                if (y - last.1).abs() < 2000. {
+                    y = if last.1 > 0. { last.1 - 3000. } else { last.1 + 3000. };
+                }
+                total += ((x - last.0).powi(2) + (y - last.1).powi(2)).sqrt();
+                segs.push(Seg::L(F(x), F(y)));
+                last = (x, y);
+            }
+            let intervals = rng.f32_in(66000., 98000.);
+            let d = total / intervals;
+            let dash_array = if rng.chance(1, 2) { vec![F(d), F(d)] } else { vec![F(d * 1.5), F(d * 0.5)] };
+            let style = StrokeSpec { width: F(rng.f32_in(0.2, 1.5)), cap: 2, join: 2, miter_limit: F(1.), dash_array, dash_offset: F(0.) };
+            em.push(si, Op::Stroke { path: PathSpec::new(false, segs), src: SrcSpec { kind: gen_solid(rng), pre: None, user_xf: None }, style, opts: c07_opts(rng) });
+            continue;
+        }
         if rng.chance(1, 40) {
             // An episode under an extreme uniform scale, with all user-space lengths divided by
             // it: the device-space geometry is what it would be under the identity (inside the
